@@ -185,6 +185,27 @@ class BadIter:
         raise exc
 
 
+class BadSeq:
+    """A *sized* lazy sequence (``__len__`` and ``__getitem__`` only, like
+    a catalogue result set) whose item ``n`` cannot be fetched."""
+
+    def __init__(self, n: int, cls: str, sink, site) -> None:
+        self.n, self.cls, self.sink, self.site = n, cls, sink, site
+
+    def __len__(self) -> int:
+        return self.n + 2
+
+    def __getitem__(self, i: int):
+        if not 0 <= i < self.n + 2:
+            raise IndexError(i)
+        if i == self.n:
+            exc = ZOO[self.cls]()
+            if self.sink is not None:
+                self.sink.append((self.site, "item", exc))
+            raise exc
+        return i
+
+
 _DEFAULT = [None]
 
 
@@ -201,6 +222,8 @@ def make_value(spec: dict, sink=None, site=None):
         return BadHtml(spec["cls"], sink, site)
     if v == "baditer":
         return BadIter(spec["n"], spec["cls"], sink, site)
+    if v == "badseq":
+        return BadSeq(spec["n"], spec["cls"], sink, site)
     if v == "none":
         return None
     if v == "str":
